@@ -3153,3 +3153,58 @@ C20_EVIO_LOAD = dict(
                       ("sample_names", "list pyname", None)])},
 )
 ALL += C20_EVIO_CODEC + [C20_EV_SAMPLE_NAMES, C20_EVIO_SAVE, C20_EVIO_LOAD]
+
+# ---- C06: ChunkedScoresHolder.__init__ / get_score / save_h5 / load_h5 (vocabulary: last part of Model/Scores.v; proofs
+# Proofs/C06SourceIO.v).  The object is `pyholder` (its four attributes; typed fields), a float score its order key `skey`,
+# the HDF5 file `shraw` (datasets and attributes by name).  Trusted per entry, ONE numpy / h5py call each:
+#   np.zeros(n, dtype=FloatingPointType / int)      n zeros (the key of 0.0 is 0), ValueError for a negative n
+#   a == v                                          elementwise;   a[mask]  boolean-mask selection (IndexError on another length)
+#   a.item()                                        the only element of an array of size 1, else ValueError
+#   h5py.File(fn, "w") = a new empty file;  h5py.File(fn, "r") = what the file holds (the parameter h5)
+#   f.create_dataset(NAME, data=d)                  appends (NAME, d); an existing NAME raises
+#   f.attrs[NAME] = v / f.attrs[NAME]               set / read an attribute (KeyError when absent)
+#   f[NAME][:]                                      the stored array (KeyError when absent, tag 32 for another kind)
+#   len(a);  cls(n) = a fresh instance initialised by the translated __init__
+_PH = "pyholder"
+_C06_IO = dict(
+    file="src/batchie/scoring/main.py", cls="ChunkedScoresHolder", out="SrcHolderIO.v", imports="Model.Scores", overload=True,
+    fields={"size": (_PH, "Z", "ph_size {obj}", "set_ph_size {obj} {val}"),
+            "scores": (_PH, "list skey", "ph_scores {obj}", "set_ph_scores {obj} {val}"),
+            "plate_ids": (_PH, "list Z", "ph_pids {obj}", "set_ph_pids {obj} {val}"),
+            "current_index": (_PH, "Z", "ph_cur {obj}", "set_ph_cur {obj} {val}")},
+)
+C06_HOLDER_INIT = dict(
+    _C06_IO, func="__init__", name="src_holder_init", pyparams=["self", "size"],
+    params=[("self", _PH), ("size", "Z")], returns=_PH, vars={},
+    prims=[("np.zeros(__n, dtype=FloatingPointType)", "!np_zeros_keys {n}", "list skey", {"n": "Z"}),
+           ("np.zeros(__n, dtype=int)", "!np_zeros_keys {n}", "list Z", {"n": "Z"})],
+    implicit_return="{self}",
+)
+C06_HOLDER_GET_SCORE = dict(
+    _C06_IO, func="get_score", name="src_holder_get_score", pyparams=["self", "plate_id"],
+    params=[("self", _PH), ("plate_id", "Z")], returns="skey", vars={},
+    prims=[("__a == __v", "np_eq_scalar_z {a} {v}", "list bool", {"a": "list Z", "v": "Z"}),
+           ("__a[__m]", "!mask_select {a} {m}", "list skey", {"a": "list skey", "m": "list bool"}),
+           ("__a.item()", "!array_only {a}", "skey", {"a": "list skey"})],
+)
+C06_HOLDER_SAVE = dict(
+    _C06_IO, func="save_h5", name="src_holder_save_h5", pyparams=["self", "fn"],
+    params=[("self", _PH)], returns="shraw", vars={"f": "shraw"},       # returns what has been written to `fn`
+    contexts=[("h5py.File(fn, 'w')", "shraw_empty", "shraw")],
+    typed_effects=[("f.create_dataset('scores', data=__d)", "f'", "!shraw_create {state} SK_scores (SH_F1 {d})", {"d": "list skey"}),
+                   ("f.create_dataset('plate_ids', data=__d)", "f'", "!shraw_create {state} SK_plate_ids (SH_I1 {d})", {"d": "list Z"})],
+    assign_effects=[("f.attrs['current_index'] = __v", "f'", "shraw_set_attr {state} SK_current_index {v}")],
+    implicit_return="{f}",
+)
+C06_HOLDER_LOAD = dict(
+    _C06_IO, func="load_h5", name="src_holder_load_h5", pyparams=["cls", "fn"],
+    params=[("h5", "shraw")], returns=_PH,                                # h5 = what the file at `fn` holds
+    vars={"f": "shraw", "scores": "list skey", "plate_ids": "list Z", "current_index": "Z", "scores_holder": _PH},
+    contexts=[("h5py.File(fn, 'r')", "h5", "shraw")],
+    prims=[("__f['scores'][:]", "!shraw_read_f1 {f} SK_scores", "list skey", {"f": "shraw"}),
+           ("__f['plate_ids'][:]", "!shraw_read_i1 {f} SK_plate_ids", "list Z", {"f": "shraw"}),
+           ("__f.attrs['current_index']", "!shraw_attr {f} SK_current_index", "Z", {"f": "shraw"}),
+           ("len(__a)", "Z.of_nat (length {a})", "Z", {"a": "list skey"}),
+           ("cls(__n)", "!src_holder_init ph_blank {n}", _PH, {"n": "Z"})],
+)
+ALL += [C06_HOLDER_INIT, C06_HOLDER_GET_SCORE, C06_HOLDER_SAVE, C06_HOLDER_LOAD]
